@@ -555,6 +555,8 @@ func Run(o *core.Options) int {
 	all = append(all, position{Raw: true, Ulid: "\x00\xff binary"}, position{Raw: true, Ulid: strings.Repeat("z", 1000)})
 	r.Set("positions", len(all))
 
+	// 0. several tokens outstanding from one encoder
+	c.outstanding()
 	// 1. round trips, every position, without key and with each key
 	r.Parallel(len(all), func(i int) {
 		c.roundTrips(all[i], "", false)
